@@ -5,8 +5,8 @@
 set -u
 M="$1"; shift
 ID="$(basename "$M")"
-WT=/tmp/mv-wt
-SCR=/tmp/mv-scr
+WT="${MV_WT:-/tmp/mv-wt}"
+SCR="${MV_SCR:-/tmp/mv-scr}"
 if [ ! -d "$WT" ]; then git -C /repo worktree add --detach "$WT" HEAD >/dev/null 2>&1; fi
 cd "$WT" || exit 2
 git checkout -q -- . ; git clean -fdq tests/ ; git checkout -q --detach "$(git -C /repo rev-parse HEAD)"
